@@ -137,6 +137,7 @@ func paramIndex(sig *types.Signature, name string) int {
 }
 
 func runC08(c *Ctx) {
+	defer checkParamsUsed(c, "C08-R1", "internal/config.newParsedRule", "internal/config.baseParsedRule")
 	defer checkSearchFlags(c, "C08-R4", "internal/config.Config.DisableOnlineChecks", "internal/config.Config.SetDisabledChecks")
 	p := c.P
 	c.Rule("C08-R1", "registration name constant == Reporter() constant of the registered check type", 34)
